@@ -924,6 +924,12 @@ func c06Gen(t *rapid.T) c06Case {
 		if rapid.Bool().Draw(t, "displayname") {
 			content = content.with("displayname", jstr("Alice")).with("reason", jstr("because"))
 		}
+		if rapid.IntRange(0, 3).Draw(t, "tpiBlock") == 0 {
+			// member events of any membership may carry the third_party_invite block of the invitation
+			// they stem from; who must sign the EVENT does not depend on it
+			content = content.with("third_party_invite", jobj("display_name", jstr("b..."), "signed",
+				jobj("mxid", jstr(*c.StateKey), "token", jstr("tok"), "signatures", jobj("id.example", jobj("ed25519:0", jstr("AAAA"))))))
+		}
 	case "message":
 		c.Type = "m.room.message"
 		content = jobj("msgtype", jstr("m.text"), "body", jstr("hello"))
